@@ -151,18 +151,28 @@ namespace _fmt_basics {
 		if (!c)
 			c = locale_opts.grouping[g];
 
-		int final_width = max(k, precision) + extra;
+		char sign = 0;
+		if(negative)
+			sign = '-';
+		else if(always_sign)
+			sign = '+';
+		else if(plus_becomes_space)
+			sign = ' ';
 
-		if(!left_justify && final_width < width)
+		// The sign is part of the field; zero padding goes between the sign and the digits,
+		// space padding in front of the sign. Left justification always pads with spaces.
+		int final_width = max(k, precision) + extra + (sign ? 1 : 0);
+
+		if(!left_justify && padding != '0' && final_width < width)
 			for(int i = 0; i < width - final_width; i++)
 				sink.append(padding);
 
-		if(negative)
-			sink.append('-');
-		else if(always_sign)
-			sink.append('+');
-		else if(plus_becomes_space)
-			sink.append(' ');
+		if(sign)
+			sink.append(sign);
+
+		if(!left_justify && padding == '0' && final_width < width)
+			for(int i = 0; i < width - final_width; i++)
+				sink.append('0');
 
 		if(k < precision) {
 			for(int i = 0; i < precision - k; i++) {
@@ -178,7 +188,7 @@ namespace _fmt_basics {
 
 		if(left_justify && final_width < width)
 			for(int i = final_width; i < width; i++)
-				sink.append(padding);
+				sink.append(' ');
 	}
 
 	// Signed integer formatting. We cannot print -x as that might not fit into the signed type.
